@@ -1,6 +1,6 @@
 (** * C18: concealed and mixed criteria are well-formed additions (instance [NumQc]).
     Random draws are assumed to lie in [0,1): hypothesis [unit_stream] on the stream of a seed. *)
-From Coq Require Import ZArith QArith Qcanon Qround Qabs Bool List String Ascii Lia Lqa Psatz Permutation.
+From Coq Require Import ZArith QArith Qcanon Qround Qabs Bool List String Ascii Lia Lqa Permutation.
 From RDM Require Import Base.Num Base.NumQc Base.Util Model.Data Model.Rank Model.Utility Model.Levels
   Model.Heuristics Model.Electre Model.Listeners Model.Biases Check.Stage Check.BiasCheckers
   Proofs.SortFacts Proofs.RankFacts Proofs.WfFacts Proofs.AggregateFacts Proofs.LevelFacts.
